@@ -5,12 +5,15 @@ package main
 // and several emulators in one process do not see each other's clients or data.
 
 import (
+	"bufio"
 	"encoding/json"
 	"fmt"
 	"math/rand"
+	"net"
 	"os"
 	"path/filepath"
 	"strings"
+	"sync"
 	"time"
 )
 
@@ -56,7 +59,8 @@ func c20Close(g *rand.Rand, log *[]string) (string, error) {
 	setup.Do(2*time.Second, bs("RPUSH", "l", "a")...)
 
 	// clients in assorted states at the moment of termination
-	kinds := []string{"idle", "pipeline", "multi", "blocked", "blocked-timeout", "busy"}
+	kinds := []string{"idle", "pipeline", "multi", "blocked", "blocked-timeout", "busy", "busy", "stalled", "just-replied"}
+	setup.Do(4*time.Second, bs("SET", "bigvalue", strings.Repeat("v", 1<<20))...)
 	type cl struct {
 		kind string
 		c    *Conn
@@ -78,6 +82,15 @@ func c20Close(g *rand.Rand, log *[]string) (string, error) {
 			c.Send(bs("BLPOP", "nolist", "0"))
 		case "blocked-timeout":
 			c.Send(bs("BRPOP", "nolist", "30"))
+		case "stalled":
+			// many large replies requested, none read: the server side is stuck in its write
+			var req []byte
+			for j := 0; j < 48; j++ {
+				req = append(req, encodeCmd(bs("GET", "bigvalue"))...)
+			}
+			c.SendRaw(req)
+		case "just-replied":
+			c.Do(2*time.Second, bs("PING")...)
 		case "busy":
 			go func() {
 				for j := 0; j < 2000; j++ {
@@ -90,11 +103,44 @@ func c20Close(g *rand.Rand, log *[]string) (string, error) {
 		cls = append(cls, cl{kind, c})
 		note("client %d: %s", i, kind)
 	}
-	time.Sleep(time.Duration(5+g.Intn(40)) * time.Millisecond)
+	// connections that are being established while Close() runs: each ends up refused or closed
+	var lateMu sync.Mutex
+	var late []*Conn
+	stopDial := make(chan struct{})
+	var dialWg sync.WaitGroup
+	nDialers := g.Intn(4)
+	for d := 0; d < nDialers; d++ {
+		dialWg.Add(1)
+		go func() {
+			defer dialWg.Done()
+			for j := 0; j < 400; j++ {
+				select {
+				case <-stopDial:
+					return
+				default:
+				}
+				c, err := net.DialTimeout("tcp", fmt.Sprintf("127.0.0.1:%d", port), time.Second)
+				if err != nil {
+					return
+				}
+				cn := &Conn{c: c}
+				cn.r = bufio.NewReaderSize(c, 1<<12)
+				lateMu.Lock()
+				late = append(late, cn)
+				lateMu.Unlock()
+			}
+		}()
+	}
+	note("%d goroutines keep connecting while Close() runs", nDialers)
+	if g.Intn(3) > 0 {
+		time.Sleep(time.Duration(g.Intn(40)) * time.Millisecond)
+	}
 
 	t0 := time.Now()
 	r, err := srv.Ctl("CLOSE 0", 15*time.Second)
 	el := time.Since(t0)
+	close(stopDial)
+	dialWg.Wait()
 	note("Close() -> %s after %v", r, el)
 	if err != nil || !strings.HasPrefix(r, "CLOSED") {
 		return fmt.Sprintf("Close() did not return within 10 s with clients %v", *log), nil
@@ -131,11 +177,30 @@ func c20Close(g *rand.Rand, log *[]string) (string, error) {
 		default:
 			reply, err = x.c.Do(400*time.Millisecond, bs("SET", "k", "5")...)
 		}
-		if err == nil && reply != nil && !(reply.Kind == '-') {
+		if err == nil && reply != nil && !(reply.Kind == '-') && x.kind != "stalled" {
 			return fmt.Sprintf("client %d (%s) was still served after Close() had returned: %s", i, x.kind, reply.String()), nil
+		}
+		// existing connections are closed: after whatever was already in flight, the stream ends
+		if !reachesEOF(x.c, 1500*time.Millisecond) {
+			return fmt.Sprintf("client %d (%s): its connection is still open after Close() had returned", i, x.kind), nil
 		}
 		x.c.Close()
 	}
+	for i, c := range late {
+		// a connection whose handshake the kernel completed on a listener that was closed before
+		// accepting it exists only on the client's side: it ends as soon as the client sends
+		c.c.SetWriteDeadline(time.Now().Add(time.Second))
+		c.c.Write(encodeCmd(bs("PING")))
+		c.c.SetReadDeadline(time.Now().Add(1500 * time.Millisecond))
+		if n, _ := c.r.Peek(1); len(n) == 1 && n[0] == '+' {
+			return fmt.Sprintf("connection %d of %d established while Close() was running was served after Close() had returned", i, len(late)), nil
+		}
+		if !reachesEOF(c, 1500*time.Millisecond) {
+			return fmt.Sprintf("connection %d of %d established while Close() was running is still open after Close() had returned", i, len(late)), nil
+		}
+		c.Close()
+	}
+	note("%d connections were established while Close() ran", len(late))
 	time.Sleep(30 * time.Millisecond)
 	after, err := c20Dump(srv, 0, 0)
 	if err != nil {
@@ -186,6 +251,90 @@ func c20Close(g *rand.Rand, log *[]string) (string, error) {
 	return "", nil
 }
 
+// does the peer end the stream (EOF or reset) within d? Bytes still in flight are drained.
+func reachesEOF(c *Conn, d time.Duration) bool {
+	deadline := time.Now().Add(d)
+	buf := make([]byte, 1<<16)
+	for {
+		c.c.SetReadDeadline(deadline)
+		_, err := c.r.Read(buf)
+		if err != nil {
+			if ne, ok := err.(net.Error); ok && ne.Timeout() {
+				return false
+			}
+			return true
+		}
+		if time.Now().After(deadline) {
+			// still sending after the bound: not closed
+			return false
+		}
+	}
+}
+
+// many start/stop cycles on one port in one process, Close() landing while every client is between
+// two commands at a different point: the narrow windows of the connection state machine
+func c20Swarm(g *rand.Rand, log *[]string) (string, error) {
+	srv, err := startServer("")
+	if err != nil {
+		return "", err
+	}
+	defer srv.Kill()
+	port := freePort()
+	cycles := 40
+	for cy := 0; cy < cycles; cy++ {
+		if r, err := srv.Ctl(fmt.Sprintf("START 1 %d", port), 10*time.Second); err != nil || !strings.HasPrefix(r, "STARTED") {
+			if !srv.Alive() {
+				return fmt.Sprintf("cycle %d: starting an emulator on the port of the one just closed failed (process exited): %s", cy, tail(srv.Stderr(), 300)), nil
+			}
+			return "", fmt.Errorf("START: %v %q", err, r)
+		}
+		n := 8 + g.Intn(17)
+		conns := make([]*Conn, 0, n)
+		for i := 0; i < n; i++ {
+			c, err := dial(port)
+			if err != nil {
+				return fmt.Sprintf("cycle %d: cannot connect to the restarted emulator: %v", cy, err), nil
+			}
+			conns = append(conns, c)
+		}
+		var wg sync.WaitGroup
+		served := make([]int, n)
+		for i, c := range conns {
+			wg.Add(1)
+			go func(i int, c *Conn) {
+				defer wg.Done()
+				for j := 0; j < 100000; j++ {
+					if _, err := c.Do(3*time.Second, bs("PING")...); err != nil {
+						return
+					}
+					served[i]++
+				}
+			}(i, c)
+		}
+		time.Sleep(time.Duration(500+g.Intn(3000)) * time.Microsecond)
+		t0 := time.Now()
+		r, err := srv.Ctl("CLOSE 1", 15*time.Second)
+		el := time.Since(t0)
+		if err != nil || !strings.HasPrefix(r, "CLOSED") || el > 2*time.Second {
+			*log = append(*log, fmt.Sprintf("cycle %d: %d clients sending PING in a loop; Close() -> %q after %v", cy, n, r, el))
+			for _, c := range conns {
+				c.Close()
+			}
+			wg.Wait()
+			return fmt.Sprintf("cycle %d: Close() did not return promptly (%q after %v) while %d clients were sending PING in a loop", cy, r, el, n), nil
+		}
+		wg.Wait() // every loop ends: its connection was closed (a Do that times out after 3 s also ends it)
+		for i, c := range conns {
+			if !reachesEOF(c, time.Second) {
+				return fmt.Sprintf("cycle %d: connection %d is still open after Close() had returned", cy, i), nil
+			}
+			c.Close()
+		}
+	}
+	*log = append(*log, fmt.Sprintf("%d start/stop cycles on port %d with 8-24 busy clients each", cycles, port))
+	return "", nil
+}
+
 // two emulators alive in one process
 func c20TwoInstances(g *rand.Rand, log *[]string) (string, error) {
 	srv, err := startServer("")
@@ -225,13 +374,33 @@ func c20TwoInstances(g *rand.Rand, log *[]string) (string, error) {
 	// A tries to kill and to unblock a client of B
 	b2.Send(bs("BLPOP", "nolist", "0"))
 	time.Sleep(40 * time.Millisecond)
-	a.Do(2*time.Second, bs("CLIENT", "KILL", "ID", fmt.Sprint(idb.Int))...)
+	kills := [][]string{{"CLIENT", "KILL", "ID", fmt.Sprint(idb.Int)}, {"CLIENT", "KILL", "TYPE", "normal"}, {"CLIENT", "KILL", "USER", "default"},
+		{"CLIENT", "KILL", "ADDR", b2.c.LocalAddr().String()}, {"CLIENT", "KILL", "LADDR", b2.c.RemoteAddr().String()}, {"CLIENT", "KILL", b2.c.LocalAddr().String()},
+		{"CLIENT", "KILL", "ID", fmt.Sprint(idb.Int), "SKIPME", "no"}, {"CLIENT", "KILL", "TYPE", "normal", "SKIPME", "yes"}}
+	first := g.Intn(len(kills))
+	for j := 0; j < 3; j++ {
+		kill := kills[(first+j*3)%len(kills)]
+		kr, err := a.Do(2*time.Second, bs(kill...)...)
+		*log = append(*log, fmt.Sprintf("on A: %v -> %v", kill, kr))
+		if err != nil {
+			return fmt.Sprintf("%v on emulator A got no reply", kill), nil
+		}
+		if kr.Kind == ':' && kr.Int != 0 || kr.Kind == '+' {
+			return fmt.Sprintf("%v on emulator A, to which only the issuing client is connected, reports %s: it acted on a client of emulator B", kill, kr.String()), nil
+		}
+	}
 	ub, _ := a.Do(2*time.Second, bs("CLIENT", "UNBLOCK", fmt.Sprint(idb.Int))...)
 	if ub != nil && ub.Int != 0 {
 		return "CLIENT UNBLOCK on emulator A acted on a client of emulator B", nil
 	}
-	if r, err := b2.Read(300 * time.Millisecond); err == nil || r != nil {
-		return fmt.Sprintf("a client of emulator B was killed/unblocked from emulator A (%v)", r), nil
+	// b2 must still be blocked: its read times out; an end of stream means it was killed
+	if r, err := b2.Read(300 * time.Millisecond); err == nil {
+		return fmt.Sprintf("a client of emulator B was unblocked from emulator A (%v)", r), nil
+	} else if ne, ok := err.(net.Error); !ok || !ne.Timeout() {
+		return fmt.Sprintf("a client of emulator B was disconnected by CLIENT KILL issued on emulator A (%v)", err), nil
+	}
+	if r, err := b.Do(2*time.Second, bs("PING")...); err != nil || string(r.Str) != "PONG" {
+		return fmt.Sprintf("a client of emulator B was disconnected by CLIENT KILL issued on emulator A (%v)", err), nil
 	}
 	// closing A leaves B serving
 	if r, err := srv.Ctl("CLOSE 0", 10*time.Second); err != nil || !strings.HasPrefix(r, "CLOSED") {
@@ -291,10 +460,14 @@ func runC20(cfg runCfg, res *Result) error {
 			name, seed = rp.Case.Name, rp.Case.Seed
 		} else if i%4 == 3 {
 			name = "two-instances"
+		} else if i%4 == 1 {
+			name = "swarm"
 		}
 		gg := rand.New(rand.NewSource(seed))
 		if name == "two-instances" {
 			why, err = c20TwoInstances(gg, &log)
+		} else if name == "swarm" {
+			why, err = c20Swarm(gg, &log)
 		} else {
 			why, err = c20Close(gg, &log)
 		}
